@@ -20,6 +20,13 @@ CHECKS = {
     },
 }
 
+CHECKS["C04"] = {
+    "text": "Theorems for an arbitrary seat count n >= 2: the circular scans return the acceptable seat at minimal (counter-)clockwise distance; one default-rule rotation from any well-formed initialised state satisfies every clause of the dead-button specification (occupants untouched, refused rotation moves nothing, bb = next live seat and dealt in, heads-up dealer = sb = other player, ring sb'/dealer' and distinctness, refusal iff < 2 live) except under two exclusion predicates that are recorded findings (F7, F8, each with a _refuted witness history); short-deck rotation; a reachable-state invariant preserved by all seven API operations; hence every rotation of every API history on every seat count and rule meets C04_ok outside the two signatures. The scans' index expressions, bounds and acceptance predicates are regenerated from seat_manager_internal.go by the translator on every run (a hard-coded modulus makes the proofs fail). Correspondence: the real seat manager is run from every state of 2- and 3-seat tables (all 20 000+ states, reachable or not), breadth-first over API-reachable states, and on random API histories for 2..10 seats; each transition is re-run through the model and the same C04_ok is evaluated on it, inside Coq.",
+    "note": "Trusted: Coq kernel + vm_compute; translator for the scan expressions; hand-written rest of coq/Model/SeatManager.v (tied by step-local differential execution from identical pre-states); random draws enter as observed oracle values with the contract 'a dealt-in seat' (valid_op). Known findings F7, F8 are excluded from the theorem by explicit signatures and reported as KNOWN-FINDING when reproduced.",
+    "technique": "Rocq proof by reachable-state invariant + general-n scan lemmas; scans regenerated from source; exhaustive small-n and random step-local correspondence",
+    "design": "DESIGN.md 5 C04",
+}
+
 NOT_YET = "not built yet in this round (work in progress; the design claims it, see DESIGN.md 5)"
 
 
@@ -35,7 +42,7 @@ def main():
                   "source_commits": hook_commits, "add_only": True},
         "engines": [
             {"name": "rocq-model", "path": "coq/", "serves_properties": sorted(CHECKS), "kind_free_text": "Coq 8.16.1 development: executable model, decidable specifications, theorems; vm_compute correspondence against Go traces"},
-            {"name": "translator", "path": "translator/", "serves_properties": ["C17"], "kind_free_text": "go/ast translator regenerating coq/Gen/*.v from /repo on every run"},
+            {"name": "translator", "path": "translator/", "serves_properties": ["C04", "C17"], "kind_free_text": "go/ast translator regenerating coq/Gen/*.v from /repo on every run"},
             {"name": "harness", "path": "harness/", "serves_properties": sorted(CHECKS), "kind_free_text": "Go drivers (-tags verif) running the real packages and printing traces as Gallina terms"}],
         "checks": [], "not_applicable": [], "notes": "see DESIGN.md; known findings in known_findings.json",
     }
